@@ -43,6 +43,22 @@ type trip struct {
 	Rewritten   string // what the multi-status rewrite did
 	body        *FaultBody
 	endless     *endlessBody
+	closed      *closeNote // nil: no body was handed out
+}
+
+// closeNote remembers whether the body of an answer was closed: a body that
+// is never closed keeps its connection from going back to the pool, and the
+// calls after it wait for a connection that never comes.
+type closeNote struct {
+	io.ReadCloser
+	done bool
+}
+
+func (c *closeNote) Close() error { c.done = true; return c.ReadCloser.Close() }
+
+func noteClose(t *trip, rc io.ReadCloser) io.ReadCloser {
+	t.closed = &closeNote{ReadCloser: rc}
+	return t.closed
 }
 
 // endlessBody is an error page that never ends (a misbehaving proxy, a
@@ -126,7 +142,7 @@ func (tr *c14Transport) RoundTrip(creq *http.Request) (*http.Response, error) {
 		t.Header = http.Header{"Content-Type": {"text/plain; charset=utf-8"}}
 		t.Body = []byte("refused before the body was read\n")
 		return &http.Response{Status: fmt.Sprintf("%d %s", t.Status, http.StatusText(t.Status)), StatusCode: t.Status, Proto: "HTTP/1.1", ProtoMajor: 1, ProtoMinor: 1,
-			Header: t.Header, Body: io.NopCloser(bytes.NewReader(t.Body)), ContentLength: int64(len(t.Body)), Request: creq}, nil
+			Header: t.Header, Body: noteClose(t, io.NopCloser(bytes.NewReader(t.Body))), ContentLength: int64(len(t.Body)), Request: creq}, nil
 	}
 	if f != nil && f.Kind == "stall" {
 		// the server never answers; only the context can end this
@@ -197,6 +213,11 @@ func (tr *c14Transport) RoundTrip(creq *http.Request) (*http.Response, error) {
 		case "status-html":
 			t.Status, t.Body = f.Arg, []byte("<html><body><h1>Proxy error</h1></body></html>")
 			t.Header = http.Header{"Content-Type": {"text/html"}}
+		case "status-other-type":
+			// neither XML nor text: what API gateways and storage back ends say
+			types := []string{"application/json", "application/problem+json", "application/octet-stream", "image/png", "multipart/mixed; boundary=x", "application/x-www-form-urlencoded", "message/http"}
+			t.Status, t.Body = f.Arg, []byte(`{"error":"upstream unavailable","code":17}`)
+			t.Header = http.Header{"Content-Type": {types[f.Sel%len(types)]}}
 		case "status-endless-text", "status-endless-html", "status-endless-opaque", "status-endless-notype":
 			t.Status, t.Body = f.Arg, nil
 			ct := map[string]string{"status-endless-text": "text/plain; charset=utf-8", "status-endless-html": "text/html", "status-endless-opaque": "application/octet-stream"}[f.Kind]
@@ -239,7 +260,7 @@ func (tr *c14Transport) RoundTrip(creq *http.Request) (*http.Response, error) {
 	return &http.Response{
 		Status: fmt.Sprintf("%d %s", t.Status, http.StatusText(t.Status)), StatusCode: t.Status,
 		Proto: "HTTP/1.1", ProtoMajor: 1, ProtoMinor: 1, Header: t.Header,
-		Body: body, ContentLength: -1, Request: creq,
+		Body: noteClose(t, body), ContentLength: -1, Request: creq,
 	}, nil
 }
 
@@ -320,11 +341,25 @@ func rewriteMultiStatus(body []byte, f *Fault) ([]byte, string) {
 	if f.Kind == "ms-response-status" {
 		var kids []*model.Elem
 		for _, k := range r.Kids {
-			if !k.Is(model.DAV, "propstat") && !k.Is(model.DAV, "status") {
+			if (!k.Is(model.DAV, "propstat") || f.Note == "keep-propstat") && !k.Is(model.DAV, "status") {
 				kids = append(kids, k)
 			}
 		}
-		kids = append(kids, &model.Elem{Space: model.DAV, Local: "status", Text: statusLine})
+		if f.Note == "keep-propstat" && f.Sel%2 == 0 {
+			// the status in front of the propstats, or behind them
+			var rest []*model.Elem
+			var hrefs []*model.Elem
+			for _, k := range kids {
+				if k.Is(model.DAV, "href") {
+					hrefs = append(hrefs, k)
+				} else {
+					rest = append(rest, k)
+				}
+			}
+			kids = append(append(hrefs, &model.Elem{Space: model.DAV, Local: "status", Text: statusLine}), rest...)
+		} else {
+			kids = append(kids, &model.Elem{Space: model.DAV, Local: "status", Text: statusLine})
+		}
 		switch f.Sel % 3 {
 		case 1:
 			kids = append(kids, &model.Elem{Space: model.DAV, Local: "responsedescription", Text: "the resource is gone"})
@@ -775,6 +810,17 @@ func (ex *executor) callStep(idx int, st *Step) {
 			bad("missing-error", "the call succeeded without a single request")
 		}
 		return
+	}
+	// every answer's body is closed by the time the call has returned, unless
+	// the call hands the stream to its caller (Open)
+	if c.Fn != "Open" {
+		for _, t := range tr.trips {
+			if t.closed != nil && !t.closed.done {
+				ex.res.Stats.NT("C14|" + class + "|unclosed " + fmt.Sprint(t.Status/100) + "xx " + t.Header.Get("Content-Type"))
+				bad("hang", fmt.Sprintf("the call returned but never closed the body of the %d answer to %s %s (Content-Type %q): its connection is never released, and with a bounded connection pool the next call waits for ever", t.Status, t.Method, t.URI, t.Header.Get("Content-Type")))
+				return
+			}
+		}
 	}
 	ex.res.Stats.ByStatus[statusClass(last.Status)]++
 	ex.res.Stats.NT("C14|" + class + faultClass(last) + fmt.Sprintf(" real=%d", last.RealStatus/100))
